@@ -249,7 +249,13 @@ class Unit:
                             continue
                     elif any(inner == a or inner.startswith(a + '(') or inner.startswith(a + '=') or inner.startswith(a + ' ') for a in DROP_ATTRS) or name in ('derive', 'serde', 'allow', 'doc'):
                         if 'keepattrs' not in opts:
-                            edits.append(Edit(t.start, drop_end, '')); cnt('R1')
+                            keep = ''
+                            if name == 'derive':
+                                # derived Default is kept (Verus accepts it and extracted code may call it); every other derive is dropped
+                                traits = [x.strip() for x in inner[len('derive('):-1].split(',')]
+                                if 'Default' in traits:
+                                    keep = '#[derive(Default)]\n'
+                            edits.append(Edit(t.start, drop_end, keep)); cnt('R1')
                     else:
                         raise GenError('unknown attribute #[%s] in %s :: %s' % (inner, rel, selector))
                     k = endtok
